@@ -28,6 +28,10 @@ impl StateMachine<'_> {
 
     fn _handle_commit_meta_header_line(&mut self) -> std::io::Result<()> {
         if self.config.commit_style.is_omitted {
+            if self.config.color_only {
+                // Maintain 1-1 correspondence between input and output lines.
+                writeln!(self.painter.writer)?;
+            }
             return Ok(());
         }
         let (mut draw_fn, pad, decoration_ansi_term_style) =
